@@ -74,7 +74,9 @@ func c03Siblings(r *an.Run) {
 		"[]go/ast.Expr":   {"compileSliceDots", "compileSliceDots"},
 		"[]*go/ast.Field": {"compileSliceDots", "compileSliceDots"},
 		"*go/ast.ForStmt": {"compileForStmt", "compileForStmt"},
-		"go/token.Pos":    {"compilePosMatcher", "compilePosReplacer"},
+	}
+	if a, b := posArmFunc(r, "matcher"), posArmFunc(r, "replacer"); a != nil && b != nil {
+		pairs["go/token.Pos"] = [2]string{a.Name(), b.Name()} // recognised by what they construct
 	}
 	for typ, p := range pairs {
 		r.Check(strings.HasSuffix(mc[typ], "."+p[0]) && strings.HasSuffix(rc[typ], "."+p[1]), "compile|arm|"+typ, rf.Pos(), "%s is handled by %s / %s on the two sides (got %q / %q)", typ, p[0], p[1], mc[typ], rc[typ])
@@ -652,7 +654,7 @@ func compiledProgramReadOnly(r *an.Run, rule string) {
 			continue
 		}
 		for _, c := range an.Calls(f) {
-			if strings.HasPrefix(an.CalleeName(c), "sort.") {
+			if isSortCall(c) || an.IsCallTo(c, "slices.Reverse") {
 				r.Fail(short(f)+"|sort", c.Pos(), "%s sorts in place while matching/replacing", short(f))
 			}
 		}
